@@ -50,8 +50,12 @@ OPTIONS = {
     "CVM": [{}, {"method": "auto"}, {"method": "exact"}, {"method": "asymptotic"}],
     "MWU": [{}, {"alternative": "two-sided"}, {"alternative": "less"}, {"alternative": "greater"}, {"method": "exact"}, {"method": "asymptotic"},
             {"use_continuity": False}, {"alternative": "less", "method": "asymptotic", "use_continuity": False}],
-    "Welch": [{}, {"alternative": "two-sided"}, {"alternative": "less"}, {"alternative": "greater"}],
+    "Welch": [{}, {"alternative": "two-sided"}, {"alternative": "less"}, {"alternative": "greater"},
+              # the remaining keywords of scipy.stats.ttest_ind the detector forwards ("passing additional arguments … using compare kwargs")
+              {"trim": 0.2}, {"trim": 0.1, "alternative": "greater"}, {"permutations": 80, "random_state": 5},
+              {"nan_policy": "raise", "alternative": "less"}],
 }
+
 RANK_BASED = ["AD", "BWS", "CVM", "MWU"]
 
 
